@@ -494,6 +494,53 @@ def eval_element(case):
     return {'v': v, 'nt': tuple(case), 'out': 'ok'}
 
 
+def _elem_set(e, kind, p, val):
+    if kind == 'node' and p == 'image_ref':
+        e.set_properties(image_ref=val, image_type='qcow2')
+    elif kind == 'node' and p == 'image_type':
+        e.set_properties(image_ref='ref', image_type=val)
+    else:
+        e.set_property(p, val)
+
+
+def eval_element_pair(case):
+    """set p, set q, read both; unset p: p absent, q still reads the value that was set"""
+    kind, p, i, q, j = case
+    v = []
+    ctx = f'[{kind}: {p} value #{i}, then {q} value #{j}]'
+    coupled = {'image_ref', 'image_type'}
+    if kind == 'node' and p in coupled and q in coupled:
+        return {'v': v, 'nt': None, 'out': 'coupled'}
+    want_p = canon_field(make(kind, props=((p, i),)).get_property(p))
+    want_q = canon_field(make(kind, props=((q, j),)).get_property(q))
+    t = live()
+    try:
+        _elem_set(element(t, kind), kind, p, VOCAB[p][i]())
+        _elem_set(element(t, kind), kind, q, VOCAB[q][j]())
+        got_p = canon_field(element(t, kind).get_property(p))
+        got_q = canon_field(element(t, kind).get_property(q))
+    except Exception as ex:
+        v.append((f'element-pair-raises/{kind}/{p}+{q}', f'{type(ex).__name__}: {ex} {ctx}'))
+        return {'v': v, 'nt': tuple(case), 'out': 'raise'}
+    if got_p != want_p:
+        v.append((f'element-set-disturbs-other/{kind}/{q}-changes-{p}', f'{p} was set to {want_p}; after setting {q} it reads {got_p} {ctx}'))
+    if got_q != want_q:
+        v.append((f'element-get-after-set/{kind}/{q}', f'set {want_q}, read back {got_q} {ctx}'))
+    if p not in ('stitch_node', 'image_type') and want_p is not None:
+        try:
+            element(t, kind).unset_property(p)
+            got_p = canon_field(element(t, kind).get_property(p))
+            got_q = canon_field(element(t, kind).get_property(q))
+        except Exception as ex:
+            v.append((f'element-pair-raises/{kind}/{p}+{q}', f'unset: {type(ex).__name__}: {ex} {ctx}'))
+            return {'v': v, 'nt': tuple(case), 'out': 'raise'}
+        if got_p is not None:
+            v.append((f'element-unset-no-effect/{kind}/{p}', f'still reads {got_p} {ctx}'))
+        if got_q != want_q and not (kind == 'node' and p == 'image_ref' and q == 'image_type'):
+            v.append((f'element-unset-disturbs-other/{kind}/{p}-changes-{q}', f'{q} was set to {want_q}; after unsetting {p} it reads {got_q} {ctx}'))
+    return {'v': v, 'nt': tuple(case), 'out': 'ok'}
+
+
 def eval_identity(case):
     kind, p = case
     v = []
@@ -513,7 +560,7 @@ def eval_identity(case):
     return {'v': v, 'nt': tuple(case), 'out': 'identity'}
 
 
-REPLAY = {'flat': eval_flat, 'shapes': eval_shape, 'elements': eval_element, 'identity': eval_identity}
+REPLAY = {'flat': eval_flat, 'shapes': eval_shape, 'elements': eval_element, 'element-pairs': eval_element_pair, 'identity': eval_identity}
 
 
 def run(report):
@@ -530,12 +577,26 @@ def run(report):
             flat.append((kind, (x,), 0))
         for a, b in itertools.combinations(props, 2):
             flat.append((kind, ((a, 0), (b, len(VOCAB[b]) - 1)), 0))
+        if report.tier != 'quick':
+            # thorough: every pair of properties with every combination of their representative values, every triple of
+            # properties, and every type member combined with each single property
+            for a, b in itertools.combinations(props, 2):
+                for i in range(len(VOCAB[a])):
+                    for j in range(len(VOCAB[b])):
+                        if (i, j) != (0, len(VOCAB[b]) - 1):
+                            flat.append((kind, ((a, i), (b, j)), 0))
+            for a, b, c in itertools.combinations(props, 3):
+                flat.append((kind, ((a, len(VOCAB[a]) - 1), (b, 0), (c, len(VOCAB[c]) - 1)), 0))
+            for ti in range(1, len(TYPES[kind])):
+                for x in pv:
+                    flat.append((kind, (x,), ti))
         flat.append((kind, tuple((p, 0) for p in props), 0))
         flat.append((kind, tuple((p, len(VOCAB[p]) - 1) for p in props), len(TYPES[kind]) - 1))
     g = explore_cases(report, 'flat', eval_flat, flat, chunk=32,
                       rule='per sliver class: every type-enum member; every single settable property x every representative value; every '
                            'unordered pair of properties; all-set (two value choices); through dict, JSON (node, service) and graph paths; '
-                           'non-trivial = all cases')
+                           'thorough adds every value combination of every pair, every triple of properties and every (type member, '
+                           'property value); non-trivial = all cases')
     explore_cases(report, 'shapes', eval_shape, shape_cases(report.tier), chunk=8,
                   rule='all node trees with <=2 (thorough 3) components, 0/1 service per component, <=2 (3) node-level services, <=2 (3) '
                        'interfaces per service, <=2 (3) sub-interfaces per dedicated port; dict, JSON and graph paths for the node, a '
@@ -551,6 +612,21 @@ def run(report):
     explore_cases(report, 'elements', eval_element, el, chunk=4,
                   rule='every element kind of a live topology x every settable property name x every representative value: set, read '
                        'back from a fresh handle, serialize, unset (unset_property and set_property(None)), read back')
+    pairs = []
+    for kind in ELEMENTS:
+        ps = [p for p in KINDS[kind].list_properties() if p not in STRUCTURAL and p in VOCAB]
+        for a in ps:
+            for b in ps:
+                if a == b:
+                    continue
+                if report.tier == 'quick':
+                    pairs.append((kind, a, 0, b, len(VOCAB[b]) - 1))
+                else:
+                    pairs += [(kind, a, i, b, j) for i in range(len(VOCAB[a])) for j in range(len(VOCAB[b]))]
+    explore_cases(report, 'element-pairs', eval_element_pair, pairs, chunk=16,
+                  rule='every element kind x every ORDERED pair of distinct settable properties (quick: one value each, thorough: all '
+                       'value combinations): set p, set q, read both back from fresh handles; unset p: p reads absent and q still reads '
+                       'what was set')
     explore_cases(report, 'identity', eval_identity, [(k, p) for k in ELEMENTS for p in ('name', 'type')], chunk=2,
                   rule='identity properties cannot be unset (must raise, value unchanged)')
     report.notes.append(f'setters without a vocabulary entry (coverage gap, not a violation): {gaps}')
